@@ -234,6 +234,7 @@ _SAFE_BUILTINS = {
     'IndexError': IndexError,
     'super': lambda *a, **k: _SuperStub(),
     'NotImplemented': NotImplemented,
+    'object': object,     # (a fresh sentinel: `_MISSING = object()`)
     'type': lambda o: _canon_class(o._cls) if isinstance(o, Instance) else type(o),
 }
 
